@@ -483,7 +483,12 @@ impl Expression {
                 PathAnalysisState::NotInPath
             }
             Expression::LitFloat { value: x, .. } => {
-                write!(value, "{}", x)?;
+                if x.is_finite() {
+                    write!(value, "{}", x)?;
+                } else {
+                    // a literal too large for `f64` (there is no literal for other non-finite values)
+                    write!(value, "1e999")?;
+                }
                 PathAnalysisState::NotInPath
             }
             Expression::LitBool { value: x, .. } => {
